@@ -347,6 +347,7 @@ func checkPair(a, b operand, same bool) {
 func main() {
 	ev.GuardFor("C03")
 	r := ev.Start("C03")
+	defer r.FinishOnPanic()
 	r.SetDeadline(ev.Pick(r, 50*time.Second, 1200*time.Second))
 	e = &enum.E{R: r}
 	var ops [2][]operand
